@@ -3,7 +3,7 @@ from props import PROPS, budget
 
 
 def c04_gen(rng, tier):
-    n = budget(tier, 6, 40)
+    n = budget(tier, 8, 40)
     out = []
     for i in range(n):
         kinds = rng.choice(["u", "t", "p", "up", "tp", "utp"])
@@ -11,8 +11,11 @@ def c04_gen(rng, tier):
         rules = "-:0:0:%d" % rng.randrange(len(kinds))
         cfg = "U=%s;E=%d;S=-;R=%s;C=%d" % (kinds, rng.choice([0, 1]), rules, cache)
         out.append("x%d cfg=%s clients=%d per=%d names=%d seed=%d delay=%d" % (
-            i, cfg, budget(tier, 24, 64), budget(tier, 120, 1500), rng.choice([8, 40, 200]), rng.randrange(1 << 30),
+            i, cfg, budget(tier, 32, 64), budget(tier, 250, 1500), rng.choice([8, 40, 200]), rng.randrange(1 << 30),
             rng.choice([0, 5, 30])))
+    # one long run under heavy eviction pressure (tiny cache, many names): recycled cache entries
+    out.append("xe cfg=U=u;E=0;S=-;R=-:0:0:0;C=16384 clients=32 per=%d names=600 seed=%d delay=0 ls=udp" % (
+        budget(tier, 8000, 60000), rng.randrange(1 << 30)))
     return out
 
 
@@ -22,6 +25,8 @@ def c04_oracle(line, res):
         return None
     if f.get("wrong") != "0":
         return "a response carried an answer that is not the keyed function of its own question: " + f.get("first", "")[:300]
+    if int(f.get("servfail", "0")) > int(f.get("total", "0")) // 3:
+        return "more than a third of the queries failed although the upstreams answer 15 questions in 16: " + res
     if int(f.get("noresp", "0")) > int(f.get("total", "0")) // 50:
         return "more than 2% of the queries got no response: " + res
     return None
@@ -34,7 +39,8 @@ PROPS["C04"] = dict(
     rule="mix: concurrent keyed-answer stress through the in-process router: 24-64 client goroutines x 120-1500 queries "
          "over udp/tcp/gnet/DoH listeners, names drawn from a small pool (repeats => cache hits), cache sizes 0 / ~20 / ~60 / "
          "ample entries (eviction pressure), udp / tcp / pipelined upstreams answering a keyed function of (name, type, class) "
-         "after pseudo-random delays (reordering); oracle (independent decoder miekg/dns): the answer section of every "
+         "after pseudo-random delays (reordering); one question in 16 is answered TC on UDP and served over TCP, one in 16 "
+         "fails on every transport (TC on UDP and a closed TCP leg: SERVFAIL expected); oracle (independent decoder miekg/dns): the answer section of every "
          "response is the keyed function of the question that client asked; evaluations = runs, each of thousands of queries",
     assumptions=["component contracts of C04_own_answer: C05/C06 (exchange returns own reply), C07 (injective key, hit => same key), C20"],
     trusted=["C04: the theorem is about the abstract composition (Router/System.v); the concurrent runs sample real schedules"],
